@@ -57,7 +57,7 @@ def meta(tier):
                 'origins, zone switch, alignment gap, #mute/#unmute, zero-length fill, included file, label, a line emitting 00 and ff '
                 'bytes) up to the depth bound that the reference accepts, under address widths 8/12/16/24/32 (two of them with a '
                 'predefined data block); per program 6 executions: two images (fill 00 / ff) giving the exact address->byte map, and '
-                'the four formats, each decoded independently; the listing rows are also compared with the reference lines '
+                'the four formats, each decoded independently, plus two images of the window that starts inside the first multi-byte statement (-s), which must hold the same bytes from there on; the listing rows are also compared with the reference lines '
                 '(each statement once, its address, its bytes, nothing for muted lines); non-trivial = program with a gap, a muted '
                 'byte or a line longer than 6 bytes; states = distinct memory maps',
         'bounds': {'alphabet': [R.render_stmt(s) for s in sigma(0, 0xFFF0)], 'depth': 3 if q else 4, 'address_widths': [8, 12, 16, 24, 32],
@@ -85,7 +85,19 @@ def check_formats(spec, outs):
     if mem is None:
         return 'the two images differ in length'
     want_rows = spec.get('rows')
-    for fmt, o in zip(FORMATS, outs[2:]):
+    if spec.get('window_start') is not None and len(outs) >= 8:
+        # the image of a window that starts inside a multi-byte statement describes the same bytes from there on
+        n0 = spec['window_start']
+        memw = truth_from_images(outs[6].image, outs[7].image)
+        if memw is None:
+            return f'the two images for -s {n0} differ in length'
+        memw = {a + n0: b for a, b in memw.items()}
+        want = {a: b for a, b in mem.items() if a >= n0}
+        if memw != want:
+            bad = sorted(a for a in set(memw) | set(want) if memw.get(a) != want.get(a))[:4]
+            return (f'the image for -s {n0} and the formats describe different memory at {[hex(a) for a in bad]}: image '
+                    f'{[memw.get(a) for a in bad]}, formats and full image {[want.get(a) for a in bad]}')
+    for fmt, o in zip(FORMATS, outs[2:6]):
         try:
             if fmt == 'listing':
                 got, rows = F.decode_listing(o.pretty)
@@ -152,14 +164,18 @@ def shard(acc, tier, idx, n):
             acc.state((bits, tuple(sorted(ref.mem.items()))))
             text = R.render_files(files)
             cases = [Case(isa, text, fill=0), Case(isa, text, fill=0xFF)] + [Case(isa, text, pretty=f) for f in FORMATS]
+            multi = [l for l in ref.lines if l.size > 1 and not l.muted]
+            wstart = multi[0].addr + 1 if multi else None          # strictly inside the first multi-byte statement
+            if wstart is not None:
+                cases += [Case(isa, text, fill=0, start=wstart), Case(isa, text, fill=0xFF, start=wstart)]
             outs = [acc.run(c) for c in cases]
-            acc.transition(6)
+            acc.transition(len(cases))
             rows = []
             for l in ref.lines:
                 if l.kind in ('data', 'fill', 'nop', 'ldi', 'jmp', 'brr', 'zero', 'zerountil'):
                     rows.append({'file': l.file, 'line': l.lineno, 'instruction': R.render_stmt(l.stmt).strip(), 'addr': l.addr,
                                  'bytes': '' if l.muted else l.bytes.hex()})
-            spec = {'type': 'formats', 'rows': rows}
+            spec = {'type': 'formats', 'rows': rows, 'window_start': wstart}
             msg = check_formats(spec, outs)
             if msg:
                 acc.violation(cases, spec, msg, outs)
